@@ -476,3 +476,238 @@ func (l *lyingSplitter) Split(delta *big.Int) ([]*big.Int, error) {
 	}
 	return nil, fmt.Errorf("not a sum of three squares")
 }
+
+// ---------- harness-side range prover (written from the relations, not from the library's prover)
+//
+//   C_i = R^{d_i} S^{v_i}            (i < squares)
+//   R^{-sign*k} = S^{-v5} R^{-a*sign*m} prod C_i^{d_i}      with  sum d_i^2 = sign*(a*m - k)
+//
+// Honest mode (the control) proves a true statement. The degenerate modes claim a FALSE statement with
+// commitments C_i that are not units modulo n: every term C_i^x is then 0, all reconstructed
+// commitments collapse to 0 whatever the responses are, and nothing ties the claim to m any more.
+
+type harnessRange struct {
+	pk    *gabikeys.PublicKey
+	idx   int
+	sign  int
+	a     uint
+	k     *big.Int
+	m, rm *big.Int
+	d, v  []*big.Int // honest mode
+	rd    []*big.Int
+	rv    []*big.Int
+	v5    *big.Int
+	rv5   *big.Int
+	cs    []*big.Int
+	mode  string // "honest", "Cs=0", "Cs=n", "C0=0"
+}
+
+func (h *harnessRange) exp(base, e *big.Int) *big.Int {
+	if e.Sign() >= 0 {
+		return new(big.Int).Exp(base, e, h.pk.N)
+	}
+	inv := new(big.Int).ModInverse(base, h.pk.N)
+	return new(big.Int).Exp(inv, new(big.Int).Neg(e), h.pk.N)
+}
+
+func (h *harnessRange) commit(rt *rapid.T) []*big.Int {
+	pk := h.pk
+	R, S := pk.R[h.idx], pk.S
+	n := 4
+	rnd := func(label string, bits uint) *big.Int {
+		return new(big.Int).SetBytes(rapid.SliceOfN(rapid.Byte(), int(bits/8), int(bits/8)).Draw(rt, label))
+	}
+	const ld = 64
+	h.rd, h.rv, h.cs = nil, nil, nil
+	for i := 0; i < n; i++ {
+		h.rd = append(h.rd, rnd(fmt.Sprintf("rd%d", i), ld+pk.Params.Lh+pk.Params.Lstatzk))
+		h.rv = append(h.rv, rnd(fmt.Sprintf("rv%d", i), pk.Params.Lm+pk.Params.Lh+pk.Params.Lstatzk))
+	}
+	h.rv5 = rnd("rv5", pk.Params.Lm+ld+pk.Params.Lh+pk.Params.Lstatzk)
+	if h.mode == "honest" {
+		delta := new(big.Int).Mul(h.m, new(big.Int).SetUint64(uint64(h.a)))
+		delta.Sub(delta, h.k)
+		if h.sign == -1 {
+			delta.Neg(delta)
+		}
+		h.d = fourSquaresSmall(delta.Int64())
+		h.v, h.v5 = nil, bi(0)
+		for i := 0; i < n; i++ {
+			h.v = append(h.v, rnd(fmt.Sprintf("v%d", i), pk.Params.Lm-8))
+			h.v5.Add(h.v5, new(big.Int).Mul(h.d[i], h.v[i]))
+			c := new(big.Int).Mul(h.exp(R, h.d[i]), h.exp(S, h.v[i]))
+			h.cs = append(h.cs, c.Mod(c, pk.N))
+		}
+		// t_m = S^{-rv5} R^{-a*sign*rm} prod C_i^{rd_i}
+		tm := h.exp(S, new(big.Int).Neg(h.rv5))
+		e := new(big.Int).Mul(h.rm, bi(-int64(h.a)*int64(h.sign)))
+		tm.Mul(tm, h.exp(R, e)).Mod(tm, pk.N)
+		for i := 0; i < n; i++ {
+			tm.Mul(tm, h.exp(h.cs[i], h.rd[i])).Mod(tm, pk.N)
+		}
+		out := []*big.Int{tm}
+		for i := 0; i < n; i++ {
+			t := new(big.Int).Mul(h.exp(R, h.rd[i]), h.exp(S, h.rv[i]))
+			out = append(out, t.Mod(t, pk.N))
+		}
+		return out
+	}
+	// degenerate: claimed d_i = v_i = 0
+	h.d, h.v, h.v5 = nil, nil, bi(0)
+	for i := 0; i < n; i++ {
+		h.d = append(h.d, bi(0))
+		h.v = append(h.v, bi(0))
+		c := bi(0)
+		switch {
+		case h.mode == "Cs=n":
+			c = new(big.Int).Set(pk.N)
+		case h.mode == "C0=0" && i > 0:
+			c = h.exp(S, bi(int64(i)+1)) // an ordinary unit; only C_0 is degenerate
+		}
+		h.cs = append(h.cs, c)
+	}
+	out := []*big.Int{bi(0)} // t_m: contains C_0^{x} = 0
+	for i := 0; i < n; i++ {
+		if h.cs[i].Sign() == 0 || h.cs[i].Cmp(pk.N) == 0 {
+			out = append(out, bi(0)) // C_i has no inverse: the verifier's C_i^{-c} stays 0
+			continue
+		}
+		// C_i = S^{i+1} is a unit: prove it honestly (d_i = 0, v_i = i+1)
+		h.v[i] = bi(int64(i) + 1)
+		t := new(big.Int).Mul(h.exp(R, h.rd[i]), h.exp(S, h.rv[i]))
+		out = append(out, t.Mod(t, pk.N))
+	}
+	return out
+}
+
+func (h *harnessRange) proof(c *big.Int) *rangeproof.Proof {
+	p := &rangeproof.Proof{Ld: 64, Sign: h.sign, A: h.a, K: new(big.Int).Set(h.k), Cs: h.cs}
+	for i := range h.cs {
+		p.DResponses = append(p.DResponses, new(big.Int).Add(h.rd[i], new(big.Int).Mul(c, h.d[i])))
+		p.VResponses = append(p.VResponses, new(big.Int).Add(h.rv[i], new(big.Int).Mul(c, h.v[i])))
+	}
+	p.V5Response = new(big.Int).Add(h.rv5, new(big.Int).Mul(c, h.v5))
+	return p
+}
+
+type advRangeWrapper struct {
+	adv *advBuilder
+	hr  *harnessRange
+	rt  *rapid.T
+}
+
+func (b *advRangeWrapper) PublicKey() *gabikeys.PublicKey          { return b.adv.PublicKey() }
+func (b *advRangeWrapper) SetProofPCommitment(c *ProofPCommitment) { b.adv.SetProofPCommitment(c) }
+func (b *advRangeWrapper) Commit(r map[string]*big.Int) ([]*big.Int, error) {
+	l, err := b.adv.Commit(r)
+	if err != nil {
+		return nil, err
+	}
+	return append(l, b.hr.commit(b.rt)...), nil
+}
+func (b *advRangeWrapper) CreateProof(c *big.Int) Proof {
+	p := b.adv.CreateProof(c).(*ProofD)
+	p.RangeProofs = map[int][]*rangeproof.Proof{b.hr.idx: {b.hr.proof(c)}}
+	return p
+}
+
+func TestVF_C12_DegenerateCommitments(t *testing.T) {
+	rec := vfh.New(t, "C12")
+	defer rec.Flush()
+	rec.Check(func(rt *rapid.T) {
+		drawLibSeed(t, rt)
+		kp := drawKey(rt, false, true)
+		pk := kp.Pk
+		attrs := []*big.Int{bi(int64(rapid.IntRange(1000, 1<<30).Draw(rt, "a1"))), bi(int64(rapid.IntRange(1000, 1<<30).Draw(rt, "a2"))), bi(int64(rapid.IntRange(1000, 1<<30).Draw(rt, "a3")))}
+		cred, err := issueDirect(kp, genSecret(rt, "secret"), attrs)
+		if err != nil {
+			rt.Fatalf("issue: %v", err)
+		}
+		idx := rapid.IntRange(2, 3).Draw(rt, "idx")
+		m := cred.Attributes[idx]
+		sign := rapid.SampledFrom([]int{1, -1}).Draw(rt, "sign")
+		a := uint(rapid.IntRange(1, 4).Draw(rt, "factor"))
+		gap := bi(int64(rapid.IntRange(1, 1<<20).Draw(rt, "gap")))
+		am := new(big.Int).Mul(m, bi(int64(a)))
+		ctx, nonce := bi(1), bi(int64(rapid.IntRange(1, 1<<30).Draw(rt, "nonce")))
+		run := func(mode string) bool {
+			// true statement for the control (a*m >= a*m - gap, or a*m <= a*m + gap), false one otherwise
+			k := new(big.Int).Sub(am, gap)
+			if (sign == -1) != (mode != "honest") {
+				k = new(big.Int).Add(am, gap)
+			}
+			ab, err := newAdvBuilder(kp, cred, []int{0, 2, 3}, map[int]*big.Int{1: cred.Attributes[1]})
+			if err != nil {
+				rt.Fatalf("adv: %v", err)
+			}
+			hr := &harnessRange{pk: pk, idx: idx, sign: sign, a: a, k: k, m: m, rm: ab.aC[idx], mode: mode}
+			pl, err := ProofBuilderList{&advRangeWrapper{adv: ab, hr: hr, rt: rt}}.BuildProofList(ctx, nonce, false)
+			if err != nil || ab.negative {
+				rec.Class("degenerate/prover-gave-up", 1)
+				return true
+			}
+			js, err := json.Marshal(pl)
+			if err != nil {
+				return true
+			}
+			var back ProofList
+			if json.Unmarshal(js, &back) != nil {
+				return true
+			}
+			det := map[string]any{"key": kp.Name, "attrs": fmt.Sprint(attrs), "index": idx, "claim": fmt.Sprintf("sign=%d factor=%d k=%s", sign, a, k), "mode": mode}
+			var acc bool
+			ps := vfh.Guard(func() { acc = back.Verify(keys1(kp), ctx, nonce, false, nil) })
+			rec.Case("harness-range-prover/"+mode, mode != "honest", fmt.Sprintf("hr|%s|%v|%d|%d|%d|%s|%s", kp.Name, attrs, idx, sign, a, k, mode))
+			if ps != "" {
+				return rec.Fail(rt, ps+":harness-range-prover:"+mode, det)
+			}
+			if mode == "honest" {
+				rec.Control(acc, "harness range prover with a true statement (null deviation) rejected")
+				return acc
+			}
+			if acc {
+				if v := c12Oracle(back[0].(*ProofD), cred.Attributes); v != "" {
+					return rec.Fail(rt, v+":degenerate-commitments:"+mode, det)
+				}
+			}
+			return true
+		}
+		if !run("honest") {
+			return
+		}
+		rec.Sample(func() any {
+			return map[string]any{"key": kp.Name, "index": idx, "false_claims_with": "C_i = 0, C_i = n, only C_0 = 0"}
+		})
+		for _, mode := range []string{"Cs=0", "Cs=n", "C0=0"} {
+			if !run(mode) {
+				return
+			}
+		}
+	})
+}
+
+
+// fourSquaresSmall: a decomposition of a small non-negative integer into four squares (greedy search)
+func fourSquaresSmall(n int64) []*big.Int {
+	isqrt := func(x int64) int64 {
+		r := int64(0)
+		for (r+1)*(r+1) <= x {
+			r++
+		}
+		return r
+	}
+	for a := isqrt(n); a >= 0; a-- {
+		r1 := n - a*a
+		for b := isqrt(r1); b >= 0; b-- {
+			r2 := r1 - b*b
+			for c := isqrt(r2); c >= 0; c-- {
+				r3 := r2 - c*c
+				d := isqrt(r3)
+				if d*d == r3 {
+					return []*big.Int{bi(a), bi(b), bi(c), bi(d)}
+				}
+			}
+		}
+	}
+	panic("no four-square decomposition")
+}
